@@ -122,6 +122,40 @@ func c04Response(run *ev.Run, rec *recorded, key string) {
 			if c04Thin(e, k, len(body), bounds) {
 				continue
 			}
+			if _, atB := bounds[k]; rec.Proto == "grpc" && !inHeaders && (atB || k == len(body)) {
+				// trailers that were announced (the keys are in Response.Trailer with
+				// nil values, net/http's convention) but never arrived: an announced
+				// Grpc-Status is not a status
+				akey := fmt.Sprintf("%s/resp/k=%d/%s/trailers=announced-never-filled", key, k, e.name)
+				res2 := *rec.Ex.Result
+				res2.Trailer = nil
+				cut := &wire.ScriptedBody{Data: body[:k], FinalErr: e.err}
+				cn := &wire.Canned{Respond: func(req *http.Request, _ []byte) (*http.Response, error) {
+					resp := wire.ResponseFromResult(req, &res2, cut)
+					resp.Trailer = http.Header{"Grpc-Status": nil, "Grpc-Message": nil, "Grpc-Status-Details-Bin": nil}
+					return resp, nil
+				}}
+				var got *svc.CLog
+				ok, dump := watchdog(30*time.Second, func() {
+					got = svc.NewClientSet(cn, "http://verif.local", rec.COpts...).Do(context.Background(), rec.Kind, "replay", nil, rec.Sends)
+				})
+				run.Eval(fmt.Sprintf("%s|resp|announced-trailers|%s", rec.Name, e.name))
+				run.Count("faults.response", 1)
+				run.Count("unterminated.checked", 1)
+				if !ok {
+					run.Violation(akey+"/hang", "client call did not return within 30 s", trunc(dump, 20000))
+					return
+				}
+				if got.Err == nil {
+					run.Violation(akey+"/success-without-terminator", "the call succeeded although the announced gRPC status trailers never arrived", map[string]any{"case": rec.Name, "cut": k, "of": len(body), "ending": e.name, "outcome": clientOutcome(got, true)})
+					return
+				}
+				var ace *connect.Error
+				if !errors.As(got.Err, &ace) || ace.Code() == 0 {
+					run.Violation(akey+"/uncoded", "uncoded error: "+got.Err.Error(), map[string]any{"case": rec.Name, "cut": k})
+					return
+				}
+			}
 			for _, withTr := range trailerModes {
 				ckey := fmt.Sprintf("%s/resp/k=%d/%s/trailers=%v", key, k, e.name, withTr)
 				var got *svc.CLog
